@@ -3,7 +3,10 @@ package rules
 import (
 	"embed"
 	"regexp"
+	"strings"
 	"sync"
+
+	"xvc/q"
 )
 
 // The rule sources themselves are the table of names the rules know: every
@@ -13,6 +16,18 @@ import (
 //
 //go:embed c*.go sweeps.go rules.go
 var sources embed.FS
+
+//go:embed mustpass.txt
+var mustPassTable string
+
+func init() {
+	for _, l := range strings.Split(mustPassTable, "\n") {
+		if l == "" || strings.HasPrefix(l, "#") {
+			continue
+		}
+		q.MustPass[l] = true
+	}
+}
 
 var (
 	knownOnce sync.Once
